@@ -159,6 +159,7 @@ type Exec struct {
 	inInit   bool
 	pathVio  int
 	nondetN  int
+	ctxTimeouts []*GoObj
 	pcSet    map[*Term]bool
 	model    map[*Term]*Term
 	modelOK  bool
@@ -416,6 +417,10 @@ func (e *Exec) globalAddr(gl *ssa.Global) Ptr {
 		e.ensureInit(gl.Pkg)
 		return e.globals[gl]
 	}
+	if gl.Pkg != nil && gl.Pkg.Pkg.Path() == "os" && gl.Name() == "Args" {
+		*p = Slice{e.tt.Str("/usr/local/bin/00-plugin")}
+		return p
+	}
 	// foreign error sentinels
 	if it, ok := t.Underlying().(*types.Interface); ok && isErrorType(t) && it != nil {
 		name := gl.Pkg.Pkg.Path() + "." + gl.Name()
@@ -575,6 +580,15 @@ func (e *Exec) callValue(g *G, fnv Value, args []Value, instr ssa.Instruction, d
 	case *ssa.Builtin:
 		r := e.callBuiltin(g, f, args, instr)
 		e.deliver(g, instr, r, deferOf)
+		return
+	case *logNoop:
+		e.deliver(g, instr, nil, deferOf)
+		return
+	case *errMethod:
+		e.deliver(g, instr, e.callErrMethod(g, f, args), deferOf)
+		return
+	case *objMethod:
+		e.deliver(g, instr, e.callObjMethod(g, f, args[1:]), deferOf)
 		return
 	default:
 		panic(fmt.Sprintf("callValue: %T", fnv))
@@ -1122,6 +1136,10 @@ func (e *Exec) prepareCall(g *G, fr *Frame, call *ssa.CallCommon) (Value, []Valu
 		fn = v
 	} else {
 		recv := v.(Iface)
+		if recv.T == nil && isLogIface(call.Value.Type()) {
+			// the repo's logger interface is never initialised under symgo: logging is a no-op
+			return &logNoop{}, nil
+		}
 		if recv.T == nil {
 			e.runtimePanic(g, "method call on nil interface: "+call.Method.Name())
 			return nil, nil
@@ -1146,6 +1164,17 @@ func (e *Exec) prepareCall(g *G, fr *Frame, call *ssa.CallCommon) (Value, []Valu
 		args = append(args, copyVal(e.get(fr, a)))
 	}
 	return fn, args
+}
+
+type logNoop struct{}
+
+func isLogIface(t types.Type) bool {
+	n, ok := t.(*types.Named)
+	if !ok || n.Obj().Pkg() == nil {
+		return false
+	}
+	p := n.Obj().Pkg().Path()
+	return p == "github.com/containerd/nri/pkg/log" || p == "github.com/sirupsen/logrus"
 }
 
 type errMethod struct {
@@ -1179,6 +1208,10 @@ func (e *Exec) execCall(g *G, fr *Frame, in *ssa.Call, call *ssa.CallCommon, nes
 		return
 	}
 	switch f := fn.(type) {
+	case *logNoop:
+		fr.env[in] = e.zeroResults(call.Signature())
+		fr.pc++
+		return
 	case *errMethod:
 		r := e.callErrMethod(g, f, args)
 		fr.env[in] = r
